@@ -225,6 +225,60 @@ class EntryPredicate:
                 return None
         return None
 
+    def prefix_returns(self):
+        """returns taken before the loop looks at any entry: [(constant or None, set of parameters the deciding tests depend
+        on)].  A verdict reached there is a verdict for *every* content of the iterated map, the empty one included."""
+        fn = self.fn
+        out = []
+
+        def deps(local, depth=0, seen=None):
+            seen = seen if seen is not None else set()
+            if local in seen or depth > 8:
+                return set()
+            seen.add(local)
+            if 1 <= local <= fn["argc"]:
+                return {local}
+            r = set()
+            for d in self.du.defs.get(local, []):
+                if d[0] == "call":
+                    ops = d[3]["args"]
+                else:
+                    rv = d[3]["rv"]
+                    ops = [rv.get(k) for k in ("op", "a", "b") if isinstance(rv.get(k), dict)] + list(rv.get("ops") or [])
+                    if rv.get("pl") is not None:
+                        ops.append({"cp": rv["pl"]})
+                for o in ops:
+                    pl = mir.op_place(o)
+                    if pl is not None:
+                        r |= deps(pl["l"], depth + 1, seen)
+            return r
+
+        def walk(bb, ret, guards, visited):
+            if bb in visited or bb == self.head or bb in self.body or fn["blocks"][bb]["cleanup"]:
+                return
+            visited = visited | {bb}
+            b = fn["blocks"][bb]
+            for s in b["s"]:
+                if s["lhs"]["l"] == 0 and not s["lhs"]["p"]:
+                    c = mir.op_const(s["rv"]["op"]) if s["rv"]["k"] == "use" else None
+                    ret = bool(c["int"]) if c is not None and "int" in c else None
+            t = b["t"]
+            if t["k"] == "return":
+                out.append((ret, set(guards)))
+                return
+            if t["k"] == "switch":
+                pl = mir.op_place(t["discr"])
+                g2 = guards | (deps(pl["l"]) if pl is not None else set())
+                for n in mir.block_succs(b):
+                    walk(n, ret, g2, visited)
+                return
+            if t["k"] == "call" and t["dest"]["l"] == 0 and not t["dest"]["p"]:
+                ret = None
+            for n in mir.block_succs(b):
+                walk(n, ret, guards, visited)
+        walk(0, None, frozenset(), frozenset())
+        return out
+
     def literals(self):
         """integer literals the body compares amounts with"""
         out = set()
